@@ -438,6 +438,12 @@ Proof.
   intros H. apply andb_true_iff in H as [Hv Hl]. rewrite (try_path_plain v Hv), (IH Hl). reflexivity.
 Qed.
 
+Lemma coerce_tuple_plain l : forallb plain_item l = true -> coerce_tuple pfs l = Ok tt.
+Proof.
+  induction l as [|v l IH]; cbn [forallb coerce_tuple]; [reflexivity|].
+  intros H. apply andb_true_iff in H as [Hv Hl]. rewrite (pfs_nondict v Hv). exact (IH Hl).
+Qed.
+
 Lemma no_inl_inr (l : list pyval) :
   existsb (fun x : pathterm pyval + pyval => match x with inl _ => true | inr _ => false end) (map inr l) = false.
 Proof. induction l as [|v l IH]; cbn [map existsb orb]; [reflexivity|exact IH]. Qed.
@@ -457,7 +463,7 @@ Proof.
     + cbn [coerce]. rewrite (coerce_items_plain l H). reflexivity.
     + cbn [coerced_val]. rewrite item_val_inr. reflexivity.
   - cbn [plain] in H. exists (CSeq true (map inr l)). split.
-    + cbn [coerce]. rewrite (coerce_items_plain l H). cbn [bind]. rewrite no_inl_inr. reflexivity.
+    + cbn [coerce]. rewrite (coerce_tuple_plain l H). reflexivity.
     + cbn [coerced_val]. rewrite item_val_inr. reflexivity.
 Qed.
 
